@@ -133,7 +133,7 @@ func (n *Node) txJSON(b *Block, tx *Tx) map[string]any {
 		"gasPrice": hexBig(tx.GasPrice), "chainId": hexU(n.ChainID),
 		"v": hexBig(tx.V), "r": hexBig(tx.R), "s": hexBig(tx.S),
 	}
-	if tx.Type == 2 {
+	if tx.HasFeeCap() {
 		m["maxPriorityFeePerGas"] = hexBig(tx.MaxPrio)
 		m["maxFeePerGas"] = hexBig(tx.MaxFee)
 	}
